@@ -555,4 +555,125 @@ example : d5.safe PrimD.semT = true := by decide
 example : obs (runC PrimD.semT d5 []) = obs (runI PrimD.semT d5 []) :=
   evalC_eq_evalI_concrete d5 [] (by decide) rfl (.bool true) (by rfl)
 
+/-! ## Traversal (round 2): the macro helpers have no early exit
+
+`macro_map`, `macro_filter`, `macro_exists_one` (and the interpreter's `map`/`filter`/`exists_one` branches) run the
+body on EVERY element, in order.  An element whose body fails makes the whole macro fail — wherever it stands, and
+however many elements before it already "settled" the answer (two matches of `exists_one`, …).  Seeded change C03-m5
+(stop after the second match) broke exactly this; the statements are over all sources, prefixes and suffixes. -/
+
+/-- the fold of `macro_map` stops at — and reports — the first failing element, whatever precedes and follows it -/
+theorem mapMV_first_error (f : Val → PyM Val) (v : Val) (post : List Val) (c : Exc) (hv : f v = .error c) :
+    ∀ pre : List Val, (∀ u ∈ pre, ∃ w, f u = .ok w) → mapMV f (pre ++ v :: post) = .error c
+  | [], _ => by simp only [List.nil_append, mapMV, hv]; rfl
+  | u :: pre, h => by
+      obtain ⟨w, hw⟩ := h u (List.mem_cons_self ..)
+      have ih := mapMV_first_error f v post c hv pre (fun u' hu' => h u' (List.mem_cons_of_mem _ hu'))
+      simp only [List.cons_append, mapMV, hw, ih]; rfl
+
+/-- the same for the fold of `macro_filter` -/
+theorem filterMV_first_error (f : Val → PyM Val) (v : Val) (post : List Val) (c : Exc) (hv : f v = .error c) :
+    ∀ pre : List Val, (∀ u ∈ pre, ∃ w, f u = .ok w) → filterMV f (pre ++ v :: post) = .error c
+  | [], _ => by simp only [List.nil_append, filterMV, hv]; rfl
+  | u :: pre, h => by
+      obtain ⟨w, hw⟩ := h u (List.mem_cons_self ..)
+      have ih := filterMV_first_error f v post c hv pre (fun u' hu' => h u' (List.mem_cons_of_mem _ hu'))
+      simp only [List.cons_append, filterMV, hw, ih]; rfl
+
+/-- the same for the count of `macro_exists_one`: NO number of earlier matches makes the count stop -/
+theorem countMV_first_error (f : Val → PyM Val) (v : Val) (post : List Val) (c : Exc) (hv : f v = .error c) :
+    ∀ pre : List Val, (∀ u ∈ pre, ∃ w, f u = .ok w) → countMV f (pre ++ v :: post) = .error c
+  | [], _ => by simp only [List.nil_append, countMV, hv]; rfl
+  | u :: pre, h => by
+      obtain ⟨w, hw⟩ := h u (List.mem_cons_self ..)
+      have ih := countMV_first_error f v post c hv pre (fun u' hu' => h u' (List.mem_cons_of_mem _ hu'))
+      simp only [List.cons_append, countMV, hw, ih]; rfl
+
+/-- **Compiled runner, `exists_one`.** If the body raises on an element of the source and evaluates on all elements
+before it, the transpiled `macro_exists_one` call raises that exception — for every source, whatever the outcomes
+(matches or not) on the earlier elements and whatever follows. -/
+theorem existsOne_fails_on_late_error_C (S : Sem) (a : Expr) (x : String) (body : Expr) (env : Env) (recv : Val)
+    (pre post : List Val) (v : Val) (c : Exc)
+    (hr : evalC S a env = .ok recv) (hi : S.iter recv = .ok (pre ++ v :: post))
+    (hpre : ∀ u ∈ pre, ∃ w, evalC S body (env.bind x u) = .ok w)
+    (hv : evalC S body (env.bind x v) = .error c) :
+    evalC S (.macro .existsOne a x body) env = .error c := by
+  have := countMV_first_error (fun v => evalC S body (env.bind x v)) v post c hv pre hpre
+  simp only [evalC, hr, bind, Except.bind, hi, this]
+
+/-- … and `map`, `filter` likewise -/
+theorem map_fails_on_late_error_C (S : Sem) (a : Expr) (x : String) (body : Expr) (env : Env) (recv : Val)
+    (pre post : List Val) (v : Val) (c : Exc)
+    (hr : evalC S a env = .ok recv) (hi : S.iter recv = .ok (pre ++ v :: post))
+    (hpre : ∀ u ∈ pre, ∃ w, evalC S body (env.bind x u) = .ok w)
+    (hv : evalC S body (env.bind x v) = .error c) :
+    evalC S (.macro .map a x body) env = .error c := by
+  have := mapMV_first_error (fun v => evalC S body (env.bind x v)) v post c hv pre hpre
+  simp only [evalC, hr, bind, Except.bind, hi, this]
+
+theorem filter_fails_on_late_error_C (S : Sem) (a : Expr) (x : String) (body : Expr) (env : Env) (recv : Val)
+    (pre post : List Val) (v : Val) (c : Exc)
+    (hr : evalC S a env = .ok recv) (hi : S.iter recv = .ok (pre ++ v :: post))
+    (hpre : ∀ u ∈ pre, ∃ w, evalC S body (env.bind x u) = .ok w)
+    (hv : evalC S body (env.bind x v) = .error c) :
+    evalC S (.macro .filter a x body) env = .error c := by
+  have := filterMV_first_error (fun v => evalC S body (env.bind x v)) v post c hv pre hpre
+  simp only [evalC, hr, bind, Except.bind, hi, this]
+
+/-- **Interpreter, `exists_one`/`map`/`filter`.** If the body yields an error value on an element and error-free
+values on all elements before it, the macro's value is the error (the sub-evaluator raises it, the branch's
+`except CELEvalError` returns it) — again wherever the element stands. -/
+theorem macro_fails_on_late_error_I (S : Sem) (k : MacroK) (hk : k = .existsOne ∨ k = .map ∨ k = .filter)
+    (a : Expr) (x : String) (body : Expr) (env : Env) (recv : Val)
+    (pre post : List Val) (v : Val)
+    (hr : evalI S a env = .ok recv) (hne : recv.isErr = false) (hi : S.iter recv = .ok (pre ++ v :: post))
+    (hpre : ∀ u ∈ pre, ∃ w, evalI S body (env.bind x u) = .ok w ∧ w.isErr = false)
+    (hv : evalI S body (env.bind x v) = .ok .err) :
+    evalI S (.macro k a x body) env = .ok .err := by
+  have hv' : (fun v => raiseIfErr (evalI S body (env.bind x v))) v = .error .celEval := by simp only [hv, raiseIfErr]
+  have hpre' : ∀ u ∈ pre, ∃ w, (fun v => raiseIfErr (evalI S body (env.bind x v))) u = .ok w := by
+    intro u hu
+    obtain ⟨w, hw, hne⟩ := hpre u hu
+    refine ⟨w, ?_⟩
+    cases w <;> simp_all [raiseIfErr, Val.isErr]
+  rcases hk with rfl | rfl | rfl
+  · have := countMV_first_error _ v post .celEval hv' pre hpre'
+    simp only [evalI, hr, bind, Except.bind, hne, hi, this]; rfl
+  · have := mapMV_first_error _ v post .celEval hv' pre hpre'
+    simp only [evalI, hr, bind, Except.bind, hne, hi, this]; rfl
+  · have := filterMV_first_error _ v post .celEval hv' pre hpre'
+    simp only [evalI, hr, bind, Except.bind, hne, hi, this]; rfl
+
+/-- **Both runners, observable form.** `exists_one` over a source with a failing element (a class `result()`
+converts in the compiled runner; an error value in the interpreter) is an evaluation error in BOTH runners, whatever
+the other elements do: the compiled runner may not answer `false` "because two matches were already seen". -/
+theorem existsOne_late_error_both (S : Sem) (a : Expr) (x : String) (body : Expr) (env : Env) (recv : Val)
+    (pre post : List Val) (v : Val) (c : Exc)
+    (hrC : evalC S a env = .ok recv) (hrI : evalI S a env = .ok recv) (hne : recv.isErr = false)
+    (hi : S.iter recv = .ok (pre ++ v :: post))
+    (hpreC : ∀ u ∈ pre, ∃ w, evalC S body (env.bind x u) = .ok w)
+    (hpreI : ∀ u ∈ pre, ∃ w, evalI S body (env.bind x u) = .ok w ∧ w.isErr = false)
+    (hvC : evalC S body (env.bind x v) = .error c) (hvI : evalI S body (env.bind x v) = .ok .err) :
+    obs (runC S (.macro .existsOne a x body) env) = .error ∧ obs (runI S (.macro .existsOne a x body) env) = .error := by
+  have hC := existsOne_fails_on_late_error_C S a x body env recv pre post v c hrC hi hpreC hvC
+  have hI := macro_fails_on_late_error_I S .existsOne (Or.inl rfl) a x body env recv pre post v hrI hne hi hpreI hvI
+  constructor
+  · simp only [runC, hC, resultC]
+    cases h : resultCaughtC.contains c <;> simp [obs]
+  · simp only [runI, hI, raiseIfErr, obs]
+
+/-- `[1, 1, 0].exists_one(x, 1 / x > 0)` — the witness of seeded change C03-m5: two matches, then a failing element -/
+def lateErr : Expr := .macro .existsOne (.list [.lit (.int 1), .lit (.int 1), .lit (.int 0)]) "x"
+  (.bin .gt (.bin .div (.lit (.int 1)) (.ident "x")) (.lit (.int 0)))
+example : lateErr.safe PrimD.sem = true := by decide
+example : obs (runI PrimD.sem lateErr []) = .error := by rfl
+example : obs (runC PrimD.sem lateErr []) = .error := by rfl
+/-- the hypotheses of `existsOne_late_error_both` are satisfiable: this very witness, `pre = [1, 1]`, `v = 0` -/
+example : obs (runC PrimD.sem lateErr []) = .error ∧ obs (runI PrimD.sem lateErr []) = .error :=
+  existsOne_late_error_both PrimD.sem _ "x" _ [] (.list [.int 1, .int 1, .int 0]) [.int 1, .int 1] [] (.int 0) .zeroDiv
+    (by rfl) (by rfl) (by rfl) (by rfl)
+    (by intro u hu; simp only [List.mem_cons, List.not_mem_nil, or_false, or_self] at hu; subst hu; exact ⟨.bool true, by rfl⟩)
+    (by intro u hu; simp only [List.mem_cons, List.not_mem_nil, or_false, or_self] at hu; subst hu; exact ⟨.bool true, by rfl, by rfl⟩)
+    (by rfl) (by rfl)
+
 end Cel.Props.C03
